@@ -31,14 +31,15 @@ def run_impl(case):
     import scripted
     import sched
     import portgen
-    obs = life.strip_obs(life.run_case(case, klass=scripted.ScriptedProcess))
+    klass = scripted.ScriptedSyncProcess if scripted.is_sync_program(case['prog']) else scripted.ScriptedProcess
+    obs = life.strip_obs(life.run_case(case, klass=klass))
     # the restore experiment: same program, bundles at every RUNNING / WAITING entry
     restored = []
     sc = sched.Sched()
     trace, actions = [], []
     scripted.CURRENT.update(cfg=case, trace=trace, actions=actions)
     try:
-        proc = scripted.ScriptedProcess(loop=sc.loop)
+        proc = klass(loop=sc.loop)
         proc.add_process_listener(Saver())
         del BUNDLES[:]
         SAVING[0] = True
@@ -51,17 +52,19 @@ def run_impl(case):
     finally:
         SAVING[0] = False
         sc.close()
-    for pos, b in bundles:
+    for pos, b, outs_at_save in bundles:
         sc2 = sched.Sched()
         trace2, actions2 = [], []
         scripted.CURRENT.update(cfg=case, trace=trace2, actions=actions2)
         try:
             p2 = b.unbundle(plumpy.LoadSaveContext(loop=sc2.loop))
+            outs_restored = portgen.encode(dict(p2.outputs))
             if p2.paused:
                 p2.play()
             sc2.loop.create_task(p2.step_until_terminated())
             _drive(sc2, p2, case, skip_resumes=_resumes_before(case, trace, pos))
             restored.append({'pos': pos, 'suffix_ok': steps_of(trace2) == ref[_count_steps(trace, pos):],
+                             'outputs_ok': outs_restored == portgen.encode(outs_at_save), 'outputs_restored': outs_restored,
                              'steps': steps_of(trace2), 'expected': ref[_count_steps(trace, pos):],
                              'final': _final(p2), 'final_ok': _final(p2) == final_ref})
         except Exception as e:  # noqa
@@ -189,6 +192,9 @@ def oracle(case, obs):
             return {'signature': 'restored_run_differs', 'kind': 'steps', 'at': r['pos'], 'detail': {k: r.get(k) for k in ('steps', 'expected', 'error')}}
         if not r['final_ok']:
             return {'signature': 'restored_run_differs', 'kind': 'final', 'at': r['pos'], 'detail': r.get('final')}
+        if not r.get('outputs_ok', True):
+            return {'signature': 'checkpoint_holds_outputs_emitted_after_it_was_taken', 'kind': 'outputs', 'at': r['pos'],
+                    'detail': r.get('outputs_restored')}
     return None
 
 
@@ -209,10 +215,11 @@ ARGS = [([], {}), ([1], {}), ([1, 'two'], {}), ([], {'k': 5}), ([{'a': [1, 2]}],
 MID = [lambda nxt, a: ('continue', nxt, a[0], a[1]),
        lambda nxt, a: ('wait', nxt, 'msg', {'d': 1}),
        lambda nxt, a: ('wait', nxt, None, None)]
-ENDS = [('value', 5), ('value', None), ('value', {'a': 1}), ('unsuccessful', 3), ('stop', 'r', True), ('stop', 7, False),
+ENDS = [('value', 5), ('value', None), ('value', {'a': 1}), ('value', {'__awaitable__': 'done'}), ('value', {'__awaitable__': 'pending'}),
+        ('unsuccessful', 3), ('stop', 'r', True), ('stop', 7, False),
         ('kill', ['bye']), ('kill', [None]), ('kill', None), ('raise', 'boom')]
 RESUMES = [['resume'], ['resume', 42], ['resume', 'v'], ['resume', {'k': [1]}], ['resume', None]]
-ACTS = [[], [('yield',)], [('out', 'o', 1)]]
+ACTS = [[], [('yield',)], [('out', 'o', 1)], [('out', 'n.x', 1)], [('out', 'n.y', 2)]]
 
 
 def build(mids, end, rng_choices):
